@@ -288,6 +288,7 @@ def values():
         st.floats(0.001, 9000, allow_nan=False),
         st.floats(-100, 100, allow_nan=False),
         st.sampled_from([1e-7, 3.3e-6, 1e20, 2.5e17, 1e-05, 123456789.12345679, 0.1, 1 / 3]),
+        st.sampled_from([121.00000000000001, 242.00000000000003, 1.0000000000000002, 2.0000000000000004, 99.99999999999999, 110 * 1.1]),
     )
 
 
